@@ -100,14 +100,14 @@ let dispatch cmd a =
   | "null_pad" -> tok_of_bytes (null_pad (bytes_of_tok a.(0)) (nat_of_int (int_of_string a.(1))) (bool_of_tok a.(2)))
   | "enc_vlrs" -> res tok_of_bytes (enc_vlrs (bool_of_tok a.(0)) (vlrs_of_tok a.(1)))
   | "dec_vlrs" -> res (fun (l, r) -> tok_of_vlrs l ^ " " ^ tok_of_bytes r)
-                    (dec_vlrs (bool_of_tok a.(0)) (nat_of_int (int_of_string a.(1))) (bytes_of_tok a.(2)))
+                    (dec_vlrs_f (bool_of_tok a.(0)) (nat_of_int (int_of_string a.(1))) (bytes_of_tok a.(2)))
   | "enc_header" -> res (fun (h, b) -> tok_of_bytes b ^ " " ^ tok_of_assoc h)
                       (enc_header (assoc_of_tok a.(0)) (vlrs_of_tok a.(1)) (bool_of_tok a.(2)))
   | "dec_header" ->
     res (fun rh -> String.concat " " [tok_of_assoc rh.rh_fields; tok_of_vlrs rh.rh_vlrs;
                     (match rh.rh_evlrs with None -> "none" | Some l -> "some:" ^ tok_of_vlrs l);
                     string_of_z rh.rh_fmt; tok_of_bool rh.rh_compressed; string_of_z rh.rh_psize; string_of_z rh.rh_offset])
-      (dec_header (bytes_of_tok a.(0)) (bool_of_tok a.(1)))
+      (dec_header_f (bytes_of_tok a.(0)) (bool_of_tok a.(1)))
   | "file_of" -> let ps = int_of_string a.(3) in
     res tok_of_bytes (file_of ap (assoc_of_tok a.(0)) (vlrs_of_tok a.(1)) (zi 2) (recs_of_tok ps a.(4)) (vlrs_of_tok a.(5)))
   | "wrun" ->
@@ -123,7 +123,7 @@ let dispatch cmd a =
        let (s, outs) = wrun ap s0 ops in
        String.concat "," (List.map unit_res outs) ^ " " ^ tok_of_bytes s.w_file)
   | "arun" -> let ps = int_of_string a.(1) in
-    (match aopen (bytes_of_tok a.(0)) with
+    (match aopen_f (bytes_of_tok a.(0)) with
      | Err e -> "open-err:" ^ err_name e
      | Ok s0 ->
        let chunks = List.map (fun t -> (recs_of_tok ps (String.sub t 1 (String.length t - 1)), t.[0] = 'T'))
@@ -135,8 +135,8 @@ let dispatch cmd a =
     res (fun lf -> let rh = lf.lf_h in String.concat " " [tok_of_assoc rh.rh_fields; tok_of_vlrs rh.rh_vlrs;
                     (match rh.rh_evlrs with None -> "none" | Some l -> "some:" ^ tok_of_vlrs l);
                     string_of_z rh.rh_fmt; string_of_z rh.rh_psize; string_of_z rh.rh_offset; tok_of_recs lf.lf_points])
-      (read_file (bytes_of_tok a.(0)))
-  | "read_records" -> res tok_of_recs (read_records (bytes_of_tok a.(0)) (zi 1) (zi 2) (zi 3) (zi 4))
+      (read_file_f (bytes_of_tok a.(0)))
+  | "read_records" -> res tok_of_recs (read_records_f (bytes_of_tok a.(0)) (zi 1) (zi 2) (zi 3) (zi 4))
   | "compat" -> tok_of_bool (compat (zi 0) (zi 1) (zi 2))
   | "crun" | "srun" ->
     let ops = List.map (fun t ->
